@@ -899,6 +899,7 @@ pub mod v5 {
                 _ => ErrClass::Other,
             },
             ConnectionError::Timeout(_) => ErrClass::ConnectTimeout,
+            ConnectionError::FlushTimeout => ErrClass::FlushTimeout,
             ConnectionError::Io(_) => ErrClass::Io(io_kind_of(&text)),
             ConnectionError::ConnectionRefused(_) => ErrClass::ConnectionRefused,
             ConnectionError::NotConnAck(_) => ErrClass::NotConnAck,
